@@ -32,6 +32,7 @@ def run(ctx):
     from buidl import taproot as TR
     from buidl.ecc import PrivateKey, S256Point
     from buidl.script import Script
+    from buidl.witness import Witness
     from buidl.helper import encode_varstr
     rng = random.Random(ctx.seed)
     q = ctx.quick
@@ -92,7 +93,7 @@ def run(ctx):
                     sc = Script(list(leaves[0].tap_script.commands))      # same script, other leaf version
                 ver = 0xC0 if not (n >= 4 and k == 1) else 0xC2
                 if k == n - 1 and n >= 3:
-                    ver = rng.choice([0xC0, 0xC4, 0xFA])
+                    ver = rng.choice([0xC0, 0xC4, 0xFA, 0x00, 0x00, 0x02])
                 leaves.append(TR.TapLeaf(sc, ver))
             if n >= 3 and ti % 2 == 1:
                 # the same (leaf version, script) on several leaves of one tree (siblings / different depths, depending on the shape)
@@ -155,6 +156,20 @@ def run(ctx):
                   reser = outcome(parsed[1].serialize) if parsed[0] == "ok" else ("raise", b"")
                   ext = outcome(lambda: parsed[1].external_pubkey(lf.tap_script)) if parsed[0] == "ok" else ("raise", None)
                   same_obj = outcome(lambda: (parsed[1] == cb[1]) and not (parsed[1] != cb[1])) if parsed[0] == "ok" else ("raise", False)
+                  # the read-back path of a script-path spend: a witness stack (with and without annex) gives back the leaf, its version
+                  # and a control block that recomputes the output key
+                  for annex in ([], [b"\x50" + rb(3)]):
+                      wit = Witness([rb(64), lf.tap_script.raw_serialize(), raw] + annex)
+                      wl = outcome(wit.tap_leaf)
+                      wcb = outcome(wit.control_block)
+                      wext = outcome(lambda: wit.control_block().external_pubkey(wit.tap_script()))
+                      okw = (wl[0] == "ok" and wl[1].tapleaf_version == lf.tapleaf_version and wl[1].tap_script.raw_serialize() == lf.tap_script.raw_serialize()
+                             and outcome(wl[1].hash) == outcome(lf.hash) and wcb[0] == "ok" and wcb[1].serialize() == raw
+                             and wext[0] == "ok" and wext[1].xonly() == qg.xonly() and wext[1].parity == qg.parity)
+                      if not okw:
+                          ctx.violation("witness:script-path-read-back-differs:%s" % ("annex" if annex else "noannex"),
+                                        "tree %d leaf %d (version %#x): Witness.tap_leaf / control_block do not give back the leaf and control block that were put in: %s %s %s"
+                                        % (ti, k, lf.tapleaf_version, wl, wcb, wext), {"kind": "witness-readback", "n": n, "k": k, "version": lf.tapleaf_version})
                   lc = dict(base)
                   lc.update({"id": "%s.l%d" % (kid, k), "kind": "leafcb", "hr": hr, "lf": {"leaf": True, "ver": lf.tapleaf_version, "script": B(lf.tap_script.raw_serialize())},
                              "cb": B(raw), "parse_ok": parsed[0] == "ok", "parsed_equals_built": same_obj == ("ok", True), "reser": B(reser[1]) if reser[0] == "ok" else [],
@@ -164,13 +179,15 @@ def run(ctx):
                   # alterations of the control block and of the leaf script
                   if k in (0, n - 1) or not q:
                       poss = list(range(len(raw))) if (not q and len(raw) <= 97) else sorted({0, 1, 16, 32} | set(rng.sample(range(len(raw)), min(6, len(raw)))))
-                      for pos in poss:
-                          alt = raw[:pos] + bytes([raw[pos] ^ (1 << rng.randrange(8))]) + raw[pos + 1:]
+                      alts_ = [(pos, raw[:pos] + bytes([raw[pos] ^ (1 << rng.randrange(8))]) + raw[pos + 1:]) for pos in poss]
+                      # the leaf-version bits of byte 0 replaced as a whole (parity bit kept): 00, c0, 02, fe
+                      alts_ += [(0, bytes([v_ | (raw[0] & 1)]) + raw[1:]) for v_ in (0x00, 0xC0, 0x02, 0xFE) if (v_ | (raw[0] & 1)) != raw[0]]
+                      for aj_, (pos, alt) in enumerate(alts_):
                           r2 = outcome(lambda: TR.ControlBlock.parse(alt).external_pubkey(lf.tap_script))
                           ok2 = r2[0] == "ok" and r2[1].x is not None
                           # the parity bit lives in the control block: altering byte 0's low bit changes the claimed parity, which the verifier compares
                           par2 = (alt[0] & 1)
-                          cases.append({"id": "%s.l%d.a%d" % (kid, k, pos), "kind": "altered", "what": "control-block", "res": "ok" if ok2 else "raise",
+                          cases.append({"id": "%s.l%d.a%d.%d" % (kid, k, pos, aj_), "kind": "altered", "what": "control-block", "res": "ok" if ok2 else "raise",
                                         "alt_x": B(r2[1].xonly()) if ok2 else [], "alt_parity": (r2[1].parity if (ok2 and par2 == r2[1].parity) else -2) if ok2 else -1,
                                         "qg_x": B(qg.xonly()), "qg_parity": qg.parity})
                           ctx.nontriv(("altered-cb", "byte0" if pos == 0 else "key" if pos < 33 else "path", "ok" if ok2 else "raise"))
